@@ -53,6 +53,8 @@ def gen_failing_total(rng):
 def gen(rng, tier, quarantine=()):
     if "no-failing-subscriber" not in quarantine and rng.random() < 0.08:
         return gen_failing_total(rng)
+    if rng.random() < 0.1:
+        return gen_pumped(rng, tier)
     ops = []
     nprobes = rng.choice([1, 2, 2, 3])
     kinds = {}
@@ -133,6 +135,57 @@ def gen(rng, tier, quarantine=()):
     ops.append({"op": "call", "fn": "g", "nargs": 1, "tape": [], "faults": {}})
     return {"prog": "genctx", "ops": ops, "handlers_inv": "C09.driver_handlers",
             "relax_inflight": True}
+
+
+def gen_pumped(rng, tier):
+    """A generator that somebody created at the top level is advanced now from the top level, now
+    from inside the calls of another function (pump): what its body calls is matched under the
+    pump activation that is running then -- with that activation's values -- and under none when
+    there is none."""
+    def sel(chain, focus, caps=()):
+        levels = [{"fn": f, "caps": [], "sibs": []} for f in chain]
+        if caps:
+            levels[0]["caps"] = [{"var": c, "as": c} for c in caps]
+        return {"levels": levels, "focus": {"var": focus, "as": focus}}
+
+    pool = [sel(["pump", "g"], "a", ["q"]), sel(["pump", "g"], "a"), sel(["g"], "a"), sel(["pump"], "q"),
+            sel(["pump", "g"], "a", ["q"])]
+    ops = []
+    kinds = {}
+    for i in range(rng.choice([1, 2, 2])):
+        pid = f"p{i}"
+        kinds[pid] = rng.choice(["probe", "probe", "overlay"])
+        ops.append({"op": "mk", "id": pid, "kind": kinds[pid], "sels": [rng.choice(pool)], "inv": "C09.no_foreign_events"})
+    if "overlay" in kinds.values():
+        ops[0:0] = [{"op": "tool", "fn": f, "how": "inplace"} for f in ("g", "gen", "gen2", "pump")]
+    pending, live = list(kinds), []
+    ops.append({"op": "enter", "id": pending.pop(0)})
+    live.append(ops[-1]["id"])
+    gfn = rng.choice(["gen", "gen2"])
+    tape = lambda: gen_tape(rng, 8, hi=12, odd=0.6)
+    ops.append({"op": "gen_new", "gen": "g0", "fn": gfn, "nargs": 1, "as_global": "GEN"})
+    if rng.random() < 0.5:
+        ops.append({"op": "gen_next", "gen": "g0", "tape": tape(), "faults": {}})
+    for _ in range(rng.randint(4, 10) if tier == "quick" else rng.randint(6, 20)):
+        r = rng.random()
+        if r < 0.45:
+            ops.append({"op": "call", "fn": "pump", "nargs": 1, "tape": tape(), "faults": {}})
+        elif r < 0.65:
+            ops.append({"op": "gen_next", "gen": "g0", "tape": tape(), "faults": {}})
+        elif r < 0.75:
+            ops.append({"op": "call", "fn": "g", "nargs": 1, "tape": [], "faults": {}})
+        elif r < 0.87 and pending:
+            ops.append({"op": "enter", "id": pending.pop(0)})
+            live.append(ops[-1]["id"])
+        elif live and r >= 0.87:
+            ops.append({"op": "exit", "id": live.pop()})
+    ops.append({"op": "gen_next", "gen": "g0", "tape": tape(), "faults": {}})
+    ops.append({"op": "call", "fn": "pump", "nargs": 1, "tape": tape(), "faults": {}})
+    for pid in reversed(live):
+        ops.append({"op": "exit", "id": pid})
+    ops.append({"op": "gen_close", "gen": "g0", "tape": [], "faults": {}})
+    ops.append({"op": "call", "fn": "g", "nargs": 1, "tape": [], "faults": {}})
+    return {"prog": "genctx", "ops": ops, "handlers_inv": "C09.driver_handlers", "relax_inflight": True}
 
 
 def run(scenario):
